@@ -346,9 +346,9 @@ Definition unpooled_ok (st : state) : Prop :=
   forall c cn, nth_error (conns st) c = Some cn -> kunpooled cn = true ->
     ksock cn = true \/ closer_pending st c cn = true.
 
-Lemma unpooled_ok_step g st l st' : inv_watch st -> inv_pool st -> unpooled_ok st -> step g st l = Some st' -> unpooled_ok st'.
+Lemma unpooled_ok_step g st l st' : inv_watch st -> inv_pool st -> sock_ok st -> unpooled_ok st -> step g st l = Some st' -> unpooled_ok st'.
 Proof.
-  intros W P I H. unfold unpooled_ok in *.
+  intros W P S I H. unfold unpooled_ok in *.
   destruct l; try destruct w; step_cases' H; intros xc xcn Hc Hu; unfold exit_update in *; norm.
   all: try (apply (I _ _ Hc Hu); fail).
   all: try discriminate.
@@ -364,5 +364,36 @@ Proof.
               destruct (kcancel cn); destruct (kunpooled cn); destruct (ksock cn);
               destruct (ksender cn) as [| |[[]| | |]]; destruct (kreceiver cn) as [| |[[]| | |]];
               cbn in *; try discriminate; intuition (try discriminate; try congruence) end; fail).
-  Show.
-Abort.
+  - destruct (I _ _ Hc Hu) as [X|X]; [left; exact X|right]. unfold closer_pending in *. proj_simpl.
+    apply orb_true_iff in X. apply orb_true_iff. destruct X as [X|X]; [left; exact X|right].
+    eapply existsb_upd_nth_other; [eassumption| |exact X]. cbn.
+    destruct (Nat.eqb n xc) eqn:Y; [apply Nat.eqb_eq in Y; congruence|reflexivity].
+  - left. apply (s_thread _ S _ _ E1). left. assumption.
+  - left. apply (s_thread _ S _ _ E1). right. assumption.
+  - left. destruct (s_abort _ S _ (nth_error_In _ _ En)) as (cn' & Hc' & Hs'). congruence.
+  - destruct (I _ _ Hc Hu) as [X|X]; [left; exact X|right]. unfold closer_pending in *. proj_simpl.
+    apply orb_true_iff in X. apply orb_true_iff. destruct X as [X|X]; [left; exact X|right].
+    eapply existsb_upd_nth_other; [eassumption| |exact X]. cbn.
+    destruct (Nat.eqb n xc) eqn:Y; [apply Nat.eqb_eq in Y; congruence|reflexivity].
+  - right. unfold closer_pending. proj_simpl. rewrite existsb_app. cbn. rewrite Nat.eqb_refl. cbn. rewrite !orb_true_r. reflexivity.
+  - destruct (I _ _ Hc Hu) as [X|X]; [left; exact X|right]. unfold closer_pending in *. proj_simpl.
+    apply orb_true_iff in X. apply orb_true_iff. destruct X as [X|X]; [left; exact X|right].
+    rewrite existsb_app, X. reflexivity.
+Qed.
+
+(* C10_unpooled_gets_closed: a connection that is no longer pooled has had its socket closed by the client, or somebody
+   is on the way to closing it: nothing that left the pool stays open *)
+Theorem unpooled_gets_closed : forall g ts tr st,
+  run g (init ts) tr = Some st ->
+  forall c cn, nth_error (conns st) c = Some cn -> kunpooled cn = true -> ksock cn = true \/ closer_pending st c cn = true.
+Proof.
+  intros g ts tr. revert ts.
+  assert (X : forall tr st st', inv_watch st -> inv_pool st -> sock_ok st -> unpooled_ok st -> run g st tr = Some st' -> unpooled_ok st').
+  { clear tr. induction tr as [|l tr IH]; intros st st' W P S I H; cbn [run] in H.
+    - inversion H; subst. exact I.
+    - destruct (step g st l) as [st1|] eqn:E; [|discriminate].
+      apply (IH st1 st' (inv_watch_step _ _ _ _ W E) (inv_pool_step _ _ _ _ P E) (sock_ok_step _ _ _ _ S E)
+                (unpooled_ok_step _ _ _ _ W P S I E) H). }
+  intros ts st H. apply (X tr (init ts) st (inv_watch_init ts) (inv_pool_init ts) (sock_ok_init ts)); [|exact H].
+  intros c cn Hc. destruct c; discriminate.
+Qed.
